@@ -30,3 +30,55 @@ def data_objects(path):
             else:
                 out[name] = b[sec['off'] + st_value: sec['off'] + st_value + st_size]
     return out
+
+
+def data_relocations(path):
+    """R_X86_64_64 relocations inside data objects: {object name: [(offset in object, target symbol, addend)]}.
+    A pointer stored in a data object (slices of the reflection tables, member-name strings) is such a relocation."""
+    b = open(path, 'rb').read()
+    shoff = struct.unpack_from('<Q', b, 0x28)[0]
+    shentsize, shnum, shstrndx = struct.unpack_from('<HHH', b, 0x3A)
+    secs = []
+    for i in range(shnum):
+        name, typ, flags, addr, off, size, link, info, align, entsize = struct.unpack_from('<IIQQQQIIQQ', b, shoff + i * shentsize)
+        secs.append({'type': typ, 'off': off, 'size': size, 'link': link, 'info': info})
+    symtab = [x for x in secs if x['type'] == 2]
+    if not symtab:
+        return {}
+    symtab = symtab[0]; strtab = secs[symtab['link']]
+    syms = []
+    for k in range(symtab['size'] // 24):
+        st_name, st_info, st_other, st_shndx, st_value, st_size = struct.unpack_from('<IBBHQQ', b, symtab['off'] + 24 * k)
+        end = b.index(b'\0', strtab['off'] + st_name)
+        syms.append({'name': b[strtab['off'] + st_name:end].decode('latin1'), 'type': st_info & 0xf, 'shndx': st_shndx, 'value': st_value, 'size': st_size})
+    objs = [x for x in syms if x['type'] == 1 and x['shndx'] != 0]
+
+    def containing(shndx, addr):
+        best = None
+        for o in objs:
+            if o['shndx'] == shndx and o['value'] <= addr and (addr < o['value'] + o['size'] or (o['size'] == 0 and addr == o['value'])):
+                if best is None or o['size'] > best['size']:
+                    best = o
+        return best
+    out = {}
+    for sct in secs:
+        if sct['type'] != 4:          # SHT_RELA
+            continue
+        target_sec = sct['info']
+        for k in range(sct['size'] // 24):
+            r_off, r_info, r_add = struct.unpack_from('<QQq', b, sct['off'] + 24 * k)
+            if (r_info & 0xffffffff) != 1:      # R_X86_64_64
+                continue
+            holder = containing(target_sec, r_off)
+            if holder is None:
+                continue
+            sym = syms[r_info >> 32]
+            if sym['type'] == 3:                # section symbol: resolve to the object at that address
+                tgt = containing(sym['shndx'], r_add)
+                if tgt is None:
+                    continue
+                name, add = tgt['name'], r_add - tgt['value']
+            else:
+                name, add = sym['name'], r_add
+            out.setdefault(holder['name'], []).append((r_off - holder['value'], name, add))
+    return out
